@@ -149,7 +149,7 @@ func traceDepth(trace string) int {
 const c08Rule = "systems of 1-4 mutually referring productions (recursion through single- and multi-member unions) in which every " +
 	"reference placement is drawn from: head of first/later alternative, after single-/multi-term alternatives, after optional / " +
 	"starred / lookahead prefixes, inside groups, +, !, ~, lookahead bodies, nested alternatives, and look-alikes with a consuming term " +
-	"in front; plus 14 static fixtures with direct struct recursion; oracle: independent nullability fix-point + left-edge " +
+	"in front, built from any one of the productions; plus 14 static fixtures with direct struct recursion and the repository's example grammars (none left-recursive); oracle: independent nullability fix-point + left-edge " +
 	"reachability on the IR -- Build must fail iff some reachable production reaches itself before consuming; accepted grammars are " +
 	"parsed on sampled inputs under a crash journal and their Trace depth must stay <= 4*(grammar size+10)*(tokens+1); non-trivial = " +
 	"the reference graph has a cycle (left-recursive or a consuming look-alike); distinct by SHA-256 of the grammar"
